@@ -1,0 +1,15 @@
+//go:build verif
+
+package governance
+
+import "github.com/nspcc-dev/neo-go/pkg/crypto/keys"
+
+// VerifNewAlphabetList exposes newAlphabetList to the external conformance harness (/verif, C36).
+func VerifNewAlphabetList(fsChain, mainnet keys.PublicKeys) (keys.PublicKeys, error) {
+	return newAlphabetList(fsChain, mainnet)
+}
+
+// VerifUpdateInnerRing exposes updateInnerRing to the external conformance harness (/verif, C36).
+func VerifUpdateInnerRing(innerRing, before, after keys.PublicKeys) (keys.PublicKeys, error) {
+	return updateInnerRing(innerRing, before, after)
+}
